@@ -222,6 +222,9 @@ func init() {
 			for _, ru := range []string{"haa", "had", "hda", "hdd", "paa", "pad", "pda", "pdd"} {
 				out = append(out, sp("C06", "fixed-reuse/"+ru, seed, P("fixed", "1", "dir", "h", "ord", "a", "gap", "0", "reuse", ru)))
 			}
+			for _, rt := range []string{"hd", "pd", "ha", "pa"} {
+				out = append(out, sp("C06", "fixed-retry/"+rt, seed, P("fixed", "1", "dir", "h", "ord", "a", "gap", "0", "retry", rt)))
+			}
 			// bursts: many establishments issued at the same instant
 			for _, mode := range []string{"hdial", "pdial", "dispense"} {
 				for _, kk := range []string{"4", "9", "24", "70"} {
@@ -516,6 +519,86 @@ func runBrokerPairs(r *h.Run, c h.Conf, kind string) {
 			r.Violate("truncated-or-failed-late-call", "broker="+kind+" short", fmt.Sprintf("echo of %d bytes returned %d", n, len(lo.Val.(string))))
 		}
 	}
+	// a second attempt after a FAILED one: an ID is dialled although nobody
+	// accepted it (the dial fails after the pending window), or accepted
+	// although nobody dials (the accept gives up); then the pair is issued
+	// properly - accept, 300 ms, dial - and must succeed
+	if c.TLS != "auto" && (r.Spec.P("retry", "") != "" || (r.Spec.P("fixed", "") != "1" && w.Range("retry/on", 4) == 0)) {
+		mode := r.Spec.P("retry", "")
+		if mode == "" {
+			mode = []string{"hd", "pd", "ha", "pa"}[w.Range("retry/mode", 4)]
+		}
+		hostDials := mode[0] == 'h' // who dials in the failed attempt and in the retry
+		failed := map[byte]string{'d': "dial-without-accept", 'a': "accept-without-dial"}[mode[1]]
+		if mode[1] == 'a' {
+			hostDials = mode[0] != 'h' // mode names the side of the lonely accept
+		}
+		xid := uint32(3100)
+		xctx := fmt.Sprintf("broker=%s retry-after=%s dialler=%s", kind, failed, map[bool]string{true: "host", false: "plugin"}[hostDials])
+		i0 := w.InjectedTotal()
+		doDial := func(tag string) h.Outcome {
+			return r.Do(fmt.Sprintf("RetryDial(%d)[%s]", xid, tag), 60*time.Second, func() (any, error) {
+				if hostDials {
+					return h.HostDialPing(s.cmd, xid)
+				}
+				return s.cmd.Do("dial", fmt.Sprint(xid))
+			})
+		}
+		doAccept := func() {
+			if hostDials {
+				s.cmd.Do("accept", fmt.Sprint(xid))
+			} else {
+				h.HostAccept(r, s.cmd, xid)
+			}
+		}
+		okSoFar := true
+		if mode[1] == 'd' {
+			o := doDial("lonely")
+			if o.Hung {
+				r.Violate("hang", "op=Dial "+xctx, "a dial nobody accepts never returned")
+				okSoFar = false
+			} else if o.Err == nil {
+				r.Violate("phantom-connection", xctx, fmt.Sprintf("a dial nobody accepted succeeded: %v", o.Val))
+				okSoFar = false
+			}
+		} else {
+			doAccept()
+			// the lonely accept gives up after the pending window (net/rpc) or
+			// keeps its listener (gRPC: the connection info expires at the dialler)
+			// (the harness must not issue the second accept of the ID while the
+			// first is still waiting - "should not be called multiple times with
+			// the same ID at one time": injected stalls postpone the first one's
+			// start and with it its end)
+			t0 := w.Now()
+			time.Sleep(time.Duration(5200+w.Range("retry/wait", 3)*700) * time.Millisecond)
+			for w.Now()-t0 < 5200*time.Millisecond+(w.InjectedTotal()-i0) {
+				time.Sleep(5200*time.Millisecond + (w.InjectedTotal() - i0) - (w.Now() - t0))
+			}
+		}
+		if okSoFar {
+			time.Sleep(time.Duration(w.Range("retry/pause", 3)) * 400 * time.Millisecond)
+			if !(kind == "grpc" && mode[1] == 'a') {
+				doAccept()
+			} else {
+				// gRPC keeps the listener of the lonely accept; a fresh Accept of the
+				// ID is what a caller who retries does all the same
+				doAccept()
+			}
+			time.Sleep(300 * time.Millisecond)
+			o := doDial("retry")
+			w.Probe("retry." + failed)
+			switch {
+			case o.Hung:
+				r.Violate("hang", "op=Dial "+xctx+" step=retry", "dial never returned")
+			case o.Err != nil:
+				if w.InjectedTotal()-i0 < time.Second {
+					r.Violate("lost-pair", xctx+" step=retry", fmt.Sprintf("after the failed attempt the pair was issued properly (accept, 300 ms, dial) and the dial failed: %v", o.Err))
+				}
+			case o.Val.(string) != fmt.Sprintf("id=%d", xid):
+				r.Violate("misroute", xctx+" step=retry", fmt.Sprintf("id %d answered by %q", xid, o.Val))
+			}
+		}
+	}
 	// an ID used a second time after its listener was closed, the second
 	// accept/dial pair issued a few seconds after the first (around the
 	// broker's own 5 s timers), in either order
@@ -712,6 +795,9 @@ func init() {
 					}
 				}
 			}
+			for _, rt := range []string{"hd", "pd", "ha", "pa"} {
+				out = append(out, sp("C07", "fixed-retry/"+rt, seed, P("tls", "none", "launch", "cmd", "fixed", "1", "dir", "h", "ord", "a", "gap", "0", "retry", rt)))
+			}
 			for _, mode := range []string{"hdial", "pdial"} {
 				for _, kk := range []string{"4", "12", "40"} {
 					nv := 2
@@ -798,6 +884,24 @@ func init() {
 			}
 			for _, st := range []string{"h", "p"} {
 				out = append(out, sp("C08", "fixed-stale-dialler/"+st, seed, P("fixed", "1", "tls", "none", "dir", "h", "ord", "a", "gap", "0", "stale", st)))
+			}
+			for _, rd := range []string{"h", "p"} {
+				nv := 60
+				if tier == "thorough" {
+					nv = 2000
+				}
+				for v := 0; v < nv; v++ {
+					s := sp("C08", fmt.Sprintf("fixed-redial/%s/%d", rd, v), seed+uint64(v)*7919, P("fixed", "1", "tls", "none", "dir", "h", "ord", "a", "gap", "0", "redial", rd))
+					if v%2 == 1 {
+						s.Faults = "conn.latency"
+					}
+					if v%3 == 2 {
+						s.HotPermille, s.DelayClass = 100, "tiny"
+						s.Focus = "GRPCBroker.knock,GRPCBroker.timeoutWait,GRPCBroker.Run,GRPCBroker.getClientStream"
+					}
+					s.Wake = []int{0, 500, 1000}[v%3]
+					out = append(out, s)
+				}
 			}
 			for _, ra := range []string{"h", "p", "hdc", "pdc"} {
 				nv := 8
@@ -1141,6 +1245,64 @@ func runC08(r *h.Run) {
 		po := r.DoNoHang("Ping(after-reaccept)", 60*time.Second, actx, func() (any, error) { return nil, s.cp.Ping() })
 		if po.Err != nil && !noisy() {
 			r.Violate("main-conn-lost", actx, fmt.Sprintf("ping failed: %v", po.Err))
+		}
+	}
+	// the SAME listener dialled a second time (a second connection to the same
+	// brokered server) about as long after the first as the broker keeps the
+	// first dial's acknowledgement entry (5 s)
+	if c.TLS != "auto" && lateMark == "" && !noisy() && (r.Spec.P("redial", "") != "" || (r.Spec.P("fixed", "") != "1" && w.Range("redial/on", 4) == 0)) {
+		hostAccepts := r.Spec.P("redial", "") == "h" || (r.Spec.P("redial", "") == "" && w.Range("redial/dir", 2) == 0)
+		did := uint32(1900)
+		dctx := fmt.Sprintf("broker=grpcmux same-listener-dialled-again accept-side=%s", map[bool]string{true: "host", false: "plugin"}[hostAccepts])
+		var stop func()
+		var err error
+		if hostAccepts {
+			stop, err = h.HostAcceptOwn(s.cmd, did)
+		} else {
+			_, err = s.cmd.Do("acceptown", fmt.Sprint(did))
+		}
+		if err != nil {
+			r.Violate("lost-pair", dctx+" step=accept", fmt.Sprintf("Accept(%d) failed: %v", did, err))
+		} else {
+			dialChk := func(round string) bool {
+				i0 := w.InjectedTotal()
+				o := r.Do(fmt.Sprintf("SameListenerDial(%d)[%s]", did, round), 60*time.Second, func() (any, error) {
+					if hostAccepts {
+						return s.cmd.Do("dial", fmt.Sprint(did))
+					}
+					return h.HostDialPing(s.cmd, did)
+				})
+				switch {
+				case o.Hung:
+					r.Violate("hang", "op=Dial "+dctx+" step="+round, "dial never returned")
+				case o.Err != nil:
+					if w.InjectedTotal()-i0 < 2*time.Second {
+						r.Violate("lost-pair", dctx+" step="+round, fmt.Sprintf("dial of id %d failed: %v", did, o.Err))
+					}
+				case o.Val.(string) != fmt.Sprintf("id=%d", did):
+					r.Violate("misroute", dctx+" step="+round, fmt.Sprintf("id %d answered by %q", did, o.Val))
+				default:
+					return true
+				}
+				return false
+			}
+			if dialChk("first") {
+				gap := 5*time.Second + time.Duration(w.Range("redial/gap", 9)-4)*500*time.Microsecond
+				if w.Range("redial/far", 4) == 0 {
+					gap = time.Duration(1+w.Range("redial/gapfar", 9)) * time.Second
+				}
+				time.Sleep(gap)
+				w.Probe("mux.same-listener-dialled-again")
+				if dialChk("second") {
+					time.Sleep(5 * time.Second)
+					dialChk("third")
+				}
+			}
+			if hostAccepts {
+				r.Do(fmt.Sprintf("StopOwnServer(%d)", did), 30*time.Second, func() (any, error) { stop(); return nil, nil })
+			} else {
+				s.cmd.Do("stopown", fmt.Sprint(did))
+			}
 		}
 	}
 	// a dialler that keeps its connection object while the accepting side stops
